@@ -184,13 +184,28 @@ def differs_cmd(prop, visible=False):
     return "%s %s %s" % (os.path.join(core.VERIF, "check"), "--differs-visible" if visible else "--differs", prop)
 
 
+SHRINK_BUDGET_S = 300.0     # per check run: a failing tree must still be reported within minutes
+_shrink_spent = [0.0]
+
+
 def shrink(workdir, header, case_line, prop, idx, visible=False, maxtests=250):
+    if _shrink_spent[0] >= SHRINK_BUDGET_S:
+        return case_line
+    t_start = time.time()
+    try:
+        return _shrink(workdir, header, case_line, prop, idx, visible, maxtests,
+                       timeout=max(30, min(240, SHRINK_BUDGET_S - _shrink_spent[0])))
+    finally:
+        _shrink_spent[0] += time.time() - t_start
+
+
+def _shrink(workdir, header, case_line, prop, idx, visible, maxtests, timeout):
     inp = os.path.join(workdir, "shrink_in_%d.txt" % idx)
     out = os.path.join(workdir, "shrink_out_%d.txt" % idx)
     open(inp, "w").write(header + "\n" + case_line + "\n")
     try:
         rc, o, dt = core.run([os.path.join(core.BIN, "pvshrink"), "-in", inp, "-out", out, "-test", differs_cmd(prop, visible),
-                              "-max", str(maxtests)], check=False, timeout=900)
+                              "-max", str(maxtests)], check=False, timeout=timeout)
         if rc == 0 and os.path.exists(out):
             h, cl = core.read_cases(out)
             if cl:
